@@ -148,3 +148,16 @@ package htlcswitch
 //@   site store CircuitFwdActions.Adds: assert ret(Batch) == nil && value == adds
 //@   ensures result1 == nil && len(result0.Adds) > 0 ==> ret(Batch) == nil
 //@   ensures result0 != nil
+//@
+//@ func (cm *circuitMap) cleanClosedChannels$2$2
+//@   props C07
+//@   site call CheckResolutionMsg: assert arg(0) == addr(outKey) && !ret(isClosedChannel, 0) && ret(isClosedChannel, 1)
+//@   site call isClosedChannel nth 0: assert arg(0).BlockHeight == inKey.ChanID.BlockHeight && arg(0).TxIndex == inKey.ChanID.TxIndex &&
+//@        arg(0).TxPosition == inKey.ChanID.TxPosition
+//@   site call isClosedChannel nth 1: assert arg(0).BlockHeight == outKey.ChanID.BlockHeight && arg(0).TxIndex == outKey.ChanID.TxIndex &&
+//@        arg(0).TxPosition == outKey.ChanID.TxPosition
+//@   site mapupdate keystoneKeySet: assert arg(key).HtlcID == outKey.HtlcID && arg(key).ChanID.BlockHeight == outKey.ChanID.BlockHeight &&
+//@        arg(key).ChanID.TxIndex == outKey.ChanID.TxIndex && arg(key).ChanID.TxPosition == outKey.ChanID.TxPosition
+//@   site mapupdate circuitKeySet: assert arg(key).HtlcID == inKey.HtlcID && arg(key).ChanID.BlockHeight == inKey.ChanID.BlockHeight &&
+//@        arg(key).ChanID.TxIndex == inKey.ChanID.TxIndex && arg(key).ChanID.TxPosition == inKey.ChanID.TxPosition
+//@   site mapupdate keystoneKeySet nth 1: assert ret(CheckResolutionMsg) != nil
